@@ -38,6 +38,8 @@ inductive Fail
   | unmodelled
 deriving DecidableEq, Repr
 
+deriving instance DecidableEq for Except
+
 /-! ### fixed-width integers -/
 
 def two8 : Nat := 256
